@@ -7,9 +7,40 @@ pub fn compile(
     kerns: &[FixWord],
     entry_points: &HashMap<Char, u16>,
 ) -> (CompiledProgram, Vec<InfiniteLoopError>) {
+    compile_impl(program, design_size, kerns, entry_points, false)
+}
+
+/// Compile a lig/kern program as tftopl sees it when it looks for infinite loops.
+///
+/// TeX never executes an unconditional stop instruction that it finds inside a
+/// lig/kern program (TeX.2021.1039), but TFtoPL.2014.91 enters such an instruction in its
+/// table of ligatures as if it were a regular instruction: the phantom ligature bug.
+/// The result of this function must only be used to replicate the messages of tftopl,
+/// never to typeset.
+pub(super) fn compile_with_tftopl_phantom_ligatures(
+    program: &lang::Program,
+    design_size: FixWord,
+    kerns: &[FixWord],
+    entry_points: &HashMap<Char, u16>,
+) -> (CompiledProgram, Vec<InfiniteLoopError>) {
+    compile_impl(program, design_size, kerns, entry_points, true)
+}
+
+fn compile_impl(
+    program: &lang::Program,
+    design_size: FixWord,
+    kerns: &[FixWord],
+    entry_points: &HashMap<Char, u16>,
+    tftopl_phantom_ligatures: bool,
+) -> (CompiledProgram, Vec<InfiniteLoopError>) {
     let pair_to_instruction = build_node_to_program_start_map(program, entry_points);
-    let (replacements, infinite_loop_errors) =
-        calculate_replacements(program, design_size, kerns, pair_to_instruction);
+    let (replacements, infinite_loop_errors) = calculate_replacements(
+        program,
+        design_size,
+        kerns,
+        pair_to_instruction,
+        tftopl_phantom_ligatures,
+    );
     let program = CompiledProgram {
         right_boundary_char: program.right_boundary_char,
         replacements: replacements
@@ -164,6 +195,7 @@ fn calculate_replacements(
     design_size: FixWord,
     kerns: &[FixWord],
     pair_to_instruction: HashMap<Node, usize>,
+    tftopl_phantom_ligatures: bool,
 ) -> (HashMap<Node, Replacement>, Vec<InfiniteLoopError>) {
     let mut result: HashMap<Node, Replacement> = Default::default();
     let mut actionable: Vec<OngoingCalculation> = vec![];
@@ -172,9 +204,8 @@ fn calculate_replacements(
         let Node(left, right) = pair;
         let operation = program.instructions[index].operation;
         let operation = match operation {
-            lang::Operation::EntrypointRedirect(u, _) => {
+            lang::Operation::EntrypointRedirect(u, _) if tftopl_phantom_ligatures => {
                 // This reimplements the phantom ligature bug in tftopl.
-                // TODO: in tfmtools don't reimplement these bugs.
                 let [op_byte, remainder] = u.to_be_bytes();
                 lang::Operation::lig_kern_operation_from_bytes(op_byte, remainder)
             }
